@@ -5,7 +5,10 @@ package router
 // Overlaid into /repo/internal/router by /verif/check C32 and C20 (never written into /repo).
 // Read-only view of the unexported route table for the dumper in package commands.
 
-import "sort"
+import (
+	"net/http"
+	"sort"
+)
 
 type VerifRoute struct {
 	Endpoint, Method  string
@@ -13,6 +16,7 @@ type VerifRoute struct {
 	Lightweight       bool
 	Perms             []string
 	NilPerms          bool
+	Validations       []string
 }
 
 func (m *Router) VerifRoutes() []VerifRoute {
@@ -23,7 +27,7 @@ func (m *Router) VerifRoutes() []VerifRoute {
 	for sel, r := range m.routes {
 		out = append(out, VerifRoute{Endpoint: sel.endpoint, Method: sel.method, MustAuth: r.mustAuthenticate,
 			CanAuth: r.canAuthenticate, Lightweight: r.lightweight, Perms: append([]string{}, r.requiredPermissions...),
-			NilPerms: r.requiredPermissions == nil})
+			NilPerms: r.requiredPermissions == nil, Validations: append([]string{}, r.validations...)})
 		if sel.endpoint != r.endpoint || sel.method != r.method {
 			panic("verif: selector and route disagree: " + sel.endpoint + " / " + r.endpoint)
 		}
@@ -47,4 +51,20 @@ func (r *Route) VerifID() [2]string {
 	}
 
 	return [2]string{r.endpoint, r.method}
+}
+
+// VerifWrapHandlers replaces every route's handler by a recorder (the real handlers are not run: only
+// the gate in front of them is exercised).
+func (m *Router) VerifWrapHandlers(rec func(endpoint, method string)) {
+	m.mutex.Lock()
+	defer m.mutex.Unlock()
+
+	for _, r := range m.routes {
+		ep, me := r.endpoint, r.method
+		r.handler = func(*Session, http.ResponseWriter, *http.Request) int {
+			rec(ep, me)
+
+			return http.StatusOK
+		}
+	}
 }
